@@ -99,20 +99,21 @@ def init_state(t0, p, th):
 
 def _mk_traj(kind, n, tier):
     @obligation("C04", f"dynamic.trajectory.{kind}.n{n}", tier=tier, functions=F,
-                bounds=f"{kind} shape, initial state + {n} trajectory states (KS), t0 >= 0, t in [t0-2, t0+{n}+2]")
+                bounds=f"{kind} shape, initial state + {n} trajectory states (KS) starting 1..3 steps after it, t0 >= 0, t in [t0-2-{n}, t0+gap+{n}+2]")
     def ob(V):
         t0 = V.int("t0", 0)
         t = V.int("t")
-        V.assume(V.And(t >= t0 - 2, t <= t0 + n + 2))
+        g = V.int("gap", 0, 2)  # the trajectory may start later than the step after the initial state
+        V.assume(V.And(t >= t0 - 2 - n, t <= t0 + g + n + 2))
         shape = mk_shape(V, kind)
         poses = [pose(V, f"p{i}") for i in range(n + 1)]
-        states = [st.KSState(time_step=t0 + i, position=np.array([poses[i][0][0], poses[i][0][1]]), orientation=poses[i][1],
+        states = [st.KSState(time_step=t0 + g + i, position=np.array([poses[i][0][0], poses[i][0][1]]), orientation=poses[i][1],
                              velocity=1.0, steering_angle=0.0) for i in range(1, n + 1)]
         o = DynamicObstacle(7, ObstacleType.CAR, shape, init_state(t0, *poses[0]),
-                            TrajectoryPrediction(Trajectory(t0 + 1, states), shape))
+                            TrajectoryPrediction(Trajectory(t0 + g + 1, states), shape))
         occ = o.occupancy_at_time(t)
         s = o.state_at_time(t)
-        inside = V.And(t >= t0, t <= t0 + n)
+        inside = V.Or(V.eq(t, t0), V.And(t >= t0 + g + 1, t <= t0 + g + n))
         if occ is None:
             V.prove("no occupancy only outside the horizon", V.Not(inside))
             V.prove("no state outside the horizon", s is None)
@@ -120,11 +121,12 @@ def _mk_traj(kind, n, tier):
         V.prove("occupancy only inside the horizon", inside)
         V.prove("occupancy carries the queried time step", V.eq(occ.time_step, t))
         V.prove("state returned for t has time step t", V.And(s is not None, V.eq(s.time_step, t) if s is not None else False))
+        when = [V.eq(t, t0)] + [V.eq(t, t0 + g + i) for i in range(1, n + 1)]
         V.prove("occupancy = shape placed at the state of time t", V.Or(
-            [V.And(V.eq(t, t0 + i), placed(V, occ.shape, shape, poses[i][0], poses[i][1], "occ")) for i in range(n + 1)]))
+            [V.And(when[i], placed(V, occ.shape, shape, poses[i][0], poses[i][1], "occ")) for i in range(n + 1)]))
         if s is not None:
             V.prove("returned state is the state of time t", V.Or(
-                [V.And(V.eq(t, t0 + i), V.eq(s.position[0], poses[i][0][0]), V.eq(s.position[1], poses[i][0][1]),
+                [V.And(when[i], V.eq(s.position[0], poses[i][0][0]), V.eq(s.position[1], poses[i][0][1]),
                        V.eq(s.orientation, poses[i][1])) for i in range(n + 1)]))
 
     return ob
